@@ -139,6 +139,13 @@ add("C36", "cfg", "exploration", "exhaustive enumeration of configuration-source
     "single source, goes through Options::try_parse_from + a generated YAML file + Settings::merge; all 27 fields of the result are compared with flag > env > config > default, OR for switches, union for hidden.",
     "Derived defaults (paths, cache size) are only required not to take a value supplied for another key. Trusted: clap parsing of the generated command lines.", "DESIGN.md sections 4 (E8) and 5 C36")
 
+add("C16", "chain", "model_checking",
+    "stateless deviation-bounded exhaustive exploration of block histories x enumeration of index option combinations, plus exhaustive adversarial script batches",
+    "Every history with <=K deviations of the sat, inscription and rune suites is indexed under every listed combination of index options, and one adversarial batch of hundreds of thousands of "
+    "independent transactions covers every tapscript of <=2 bytes, every opcode-alphabet sequence up to a length after an envelope header (annex absent/present), every OP_RETURN OP_13 script with "
+    "short trailing bytes and every varint sequence up to a length over boundary integers. Oracle: Index::update returns Ok, no panic.",
+    CHAIN_NOTE + " 'Valid' means no double spend, no value creation, coinbase within subsidy+fees; scripts and witnesses are arbitrary.", "DESIGN.md section 5 C16")
+
 NOT_YET = "check not built yet in this round (see DESIGN.md build order); not claimed"
 
 def main():
